@@ -371,8 +371,25 @@ def check_partner_suffix(ctx: Check, tree: Tree) -> None:
     ctx.verdict(ok, "R-PARTNER", f"{couple.qual}::partner-suffix", tree.loc(couple.node),
                 "partner suffix = parent (no helicity) -> both daughters with make_parity_partner=True", None if ok else [unparse(c) for c in calls])
     sts = tree.func("ampform.helicity.naming::_state_to_str")
-    neg = [n for n in walk_function(sts.node) if isinstance(n, ast.If) and unparse(n.test) == "make_parity_partner"]
-    ok = bool(neg) and unparse(neg[0].body[0].value).replace(" ", "") in {"-1*state.spin_projection", "-state.spin_projection"} and unparse(neg[0].orelse[0].value) == "state.spin_projection"
+    # the value rendered as helicity under make_parity_partner / otherwise: `if flag: a else: b`,
+    # `if not flag: b else: a` and `a if flag else b` are the same thing
+    flag, when = "make_parity_partner", {}
+    for n in walk_function(sts.node):
+        test = getattr(n, "test", None)
+        if not isinstance(n, (ast.If, ast.IfExp)) or test is None:
+            continue
+        positive = unparse(test) == flag
+        negative = isinstance(test, ast.UnaryOp) and isinstance(test.op, ast.Not) and unparse(test.operand) == flag
+        if not (positive or negative):
+            continue
+        if isinstance(n, ast.IfExp):
+            a, b = n.body, n.orelse
+        elif len(n.body) == 1 and len(n.orelse) == 1 and all(isinstance(x, ast.Assign) for x in (n.body[0], n.orelse[0])) and unparse(n.body[0].targets[0]) == unparse(n.orelse[0].targets[0]):
+            a, b = n.body[0].value, n.orelse[0].value
+        else:
+            continue
+        when = {True: a, False: b} if positive else {True: b, False: a}
+    ok = bool(when) and unparse(when[True]).replace(" ", "") in {"-1*state.spin_projection", "-state.spin_projection", "state.spin_projection*-1"} and unparse(when[False]) == "state.spin_projection"
     ctx.verdict(ok, "R-PARTNER", f"{sts.qual}::negated-helicity", tree.loc(sts.node), "_state_to_str: make_parity_partner renders the negated helicity, otherwise the helicity itself")
     seq = cls.methods.get("generate_sequential_amplitude_suffix")
     loops = node_loops(seq)
